@@ -241,8 +241,9 @@ theorem C03_delivery_exact_inv_partial (s : Server) (hs : SyncInv s) (hw : WF s)
     4. every output is an inline delivery or a copy of the message (payload, QoS 0, origin).
 
     Excluded: shared subscriptions matching the topic (`hsh`), deliveries of QoS > 0 (in-flight limit, packet
-    identifiers, send quota — `hq`: the message is QoS 0, or every matching subscription of the index is), topic aliases as far as the topic BYTES of the copy go (conclusion 4 does not mention them),
-    schedule ops (`ReachSeq`), and the No Local merge (1. states what the model does, not what C03 asks: F03). -/
+    identifiers, send quota — `hq`: the message is QoS 0, or every matching subscription of the index is), topic
+    aliases as far as the topic BYTES of the copy go (conclusion 4 does not mention them), schedule ops (`ReachSeq`),
+    and the No Local merge (1. states what the model does, not what C03 asks: F03). -/
 theorem C03_delivery_exact_reach_partial (caps : Caps) (s : Server) (hr : ReachSeq caps s)
     (pk : Msg) (hig : pk.ignore = false) (ht : pk.type = 3)
     (hq : pk.qos = 0 ∨ ∀ c sub, MatchingSub s.topics pk.topic c sub → sub.qos = 0)
